@@ -32,49 +32,65 @@ class RL:
                         self.acquire = kids[0]
         if self.acquire is None:
             return
+        self.afacts, self.atr = facts, tr
         A = self.acquire
-        g = graph(A)
-        # the try-acquire dispatcher: workspace-local non-async fn called from acquire whose result is a Result<Duration, _>
+        RT = "core::result::Result<core::time::Duration"
+
+        def local_callees(fb):
+            out = []
+            for c in graph(fb).calls():
+                for d in c.targets_def():
+                    k = facts.bodies.get(d)
+                    if k is not None and k.crate.name == CRATE and k.kind == "fn" and k is not fb and not k.j.get("is_async"):
+                        out.append(k)
+            return out
+        # everything the acquire future reaches through workspace-local synchronous functions (whatever they return:
+        # a classification step such as `admit() -> Admission` may sit between acquire and the try-acquire functions)
+        reach, work = {}, list(local_callees(A))
+        while work:
+            fb = work.pop()
+            if fb.def_ in reach:
+                continue
+            reach[fb.def_] = fb
+            work += local_callees(fb)
+
+        def below(fb):
+            seen, st = {}, list(local_callees(fb))
+            while st:
+                k = st.pop()
+                if k.def_ in seen:
+                    continue
+                seen[k.def_] = k
+                st += local_callees(k)
+            return list(seen.values())
+        cands = [fb for fb in reach.values() if fb.local_ty(0)["s"].startswith(RT)]
+        is_state_method = lambda fb: bool(self.self_adt(fb) and facts.adt(self.self_adt(fb)) is not None)
+        # window states: the try-acquire functions that are methods of a state struct and have no such method below
+        # them (a free "wait or reject" helper below a state is part of that state)
+        self.windows = []
+        for fb in cands:
+            if not is_state_method(fb):
+                continue
+            lower = [k for k in below(fb) if k.local_ty(0)["s"].startswith(RT) and is_state_method(k)]
+            if not lower:
+                self.windows.append(fb)
+        self.windows.sort(key=lambda b: b.def_)
+        rty = self.windows[0].local_ty(0)["s"] if self.windows else None
+        # the dispatcher: the top-most function with the windows' return type (the enum that selects the window)
+        same = [fb for fb in cands if fb.local_ty(0)["s"] == rty]
+        tops = [fb for fb in same if not any(fb.def_ in {k.def_ for k in below(o)} for o in same if o is not fb)]
+        self.dispatch = tops[0] if len(tops) == 1 else None
+        # the acquire future is analysed with every helper between it and the try-acquire functions inlined
+        keep = {w.def_ for w in self.windows} | {fb.def_ for fb in tops}
+        from ..inline import view_of
+        self.afacts, self.atr = view_of(facts, keep)
+        A = self.acquire = self.afacts.bodies.get(self.acquire.def_) or self.acquire
         self.tcalls = []
-        for c in g.calls():
+        for c in graph(A).calls():
             for d in c.targets_def():
                 fb = facts.bodies.get(d)
-                if fb is not None and fb.crate.name == CRATE and fb.kind == "fn" and "core::result::Result<core::time::Duration" in fb.local_ty(0)["s"]:
+                if fb is not None and fb.def_ in {t.def_ for t in tops}:
                     self.tcalls.append((c, fb))
-        self.dispatch = self.tcalls[0][1] if self.tcalls else None
-        # window states: the leaves of the call tree of workspace-local functions with that return type
-        # (wrappers such as a lock-and-try helper or the enum dispatcher are looked through)
-        self.windows = []
-        if self.dispatch is not None:
-            rty = self.dispatch.local_ty(0)["s"]
-            seen, work = set(), [fb for (_c, fb) in self.tcalls]
-            while work:
-                fb = work.pop()
-                if fb.def_ in seen:
-                    continue
-                seen.add(fb.def_)
-                kids = []
-                for c in graph(fb).calls():
-                    for d in c.targets_def():
-                        k = facts.bodies.get(d)
-                        if k is not None and k.crate.name == CRATE and k.kind == "fn" and k.local_ty(0)["s"] == rty and k is not fb:
-                            kids.append(k)
-                if kids:
-                    work += kids
-                elif fb not in self.windows and self.self_adt(fb) and facts.adt(self.self_adt(fb)) is not None:
-                    # a window state is a method of a state struct; a free helper with the same return type
-                    # (e.g. the shared "wait or reject" tail) is analysed inlined into the states that use it
-                    self.windows.append(fb)
-            # a state whose only same-typed callees are free helpers is a leaf itself
-            for d in sorted(seen):
-                fb = facts.bodies.get(d)
-                if fb is None or fb in self.windows or not (self.self_adt(fb) and facts.adt(self.self_adt(fb)) is not None):
-                    continue
-                kids = [facts.bodies.get(x) for c in graph(fb).calls() for x in c.targets_def()]
-                kids = [k for k in kids if k is not None and k.crate.name == CRATE and k.kind == "fn" and k.local_ty(0)["s"] == rty and k is not fb]
-                if kids and all(not (self.self_adt(k) and facts.adt(self.self_adt(k)) is not None) for k in kids):
-                    self.windows.append(fb)
-            self.windows.sort(key=lambda b: b.def_)
         self.ok = bool(self.tcalls)
 
     def self_adt(self, body):
